@@ -6,18 +6,22 @@ CHECK = {'pkgs': ['dkg'],
  'level': 'exploration',
  'engine': 'enumx',
  'technique': 'small-scope exhaustive enumeration of ceremony configurations and round-barrier arrival/release orders: the real '
-              'runFrostParallel is run by n in-process nodes over a harness fTransport (ordered barrier, real frostp2p wire conversion), and '
-              'the outputs of all nodes are judged with the real tbls primitives',
+              'runFrostParallel is run by n in-process nodes over a harness fTransport (ordered barrier, messages through the real frostp2p '
+              'wire conversion), and the outputs of all nodes are judged with the real tbls primitives; candidates are re-run 3x (fresh '
+              'randomness) before they are reported',
  'claim': 'every (n,t,v) with n in 3..5 (thorough 3..8), t in 2..n, v in 1..2 (thorough 1..4) validators; for each the arrival=release orders '
           'of the two round barriers: n<=4 all n! orders of round 1 (round 2 identity), all n! orders of round 2 (round 1 identity) and '
           'reversed/reversed; n>=5 all rotations of the identity and of the reversed order per round (other round identity) and '
-          'reversed/reversed; map iteration pinned to rotation 0 and 1 alternately. Oracle per validator: equal group key and equal n public '
-          'shares on all nodes, secret share i matches public share i+1, every size-t subset (n<=6 all subsets, n>=7 the n cyclic windows) '
-          'of public shares recovers the group key and of secret shares threshold-signs validly under it, no size-(t-1) subset does either; '
-          'group keys of all ceremonies of a configuration pairwise distinct (>=2 ceremonies each)',
+          'reversed/reversed; map iteration pinned to rotation 0, 1 or left stock-random, cyclically over the cases. Oracle per validator: '
+          'equal group key and equal public shares 1..n on all nodes, secret share of node i matches public share i+1 in every node\'s map, '
+          'every size-t subset of public shares recovers the group key and of secret shares threshold-signs validly under it, no '
+          'size-(t-1) subset does either (n<=6 all subsets in every ceremony; n>=7 all subsets in the first ceremony of each work unit, '
+          'the n cyclic windows in the others); group keys of all ceremonies and validators of a work unit pairwise distinct '
+          '(>=6 independent ceremonies per configuration). Thorough only: the complete dkg.Run (libp2p on loopback, lock files and keystores '
+          'read back from disk) for (n,t) in {(3,2),(4,3)}, 2 validators, two independent ceremonies each, same oracle',
  'trusted': 'herumi/tbls primitives (SecretToPublicKey, RecoverPubkey, Sign, ThresholdAggregate, Verify) are the judge; the harness transport is '
             'a reliable all-to-all barrier that checks message addressing like frostP2P but does not re-validate payloads (commitment count); '
-            'ceremonies that return an error on any node are skipped (the property is conditional on success)',
+            'ceremonies that return an error on any node are skipped and noted (the property is conditional on success)',
  'rule': 'one evaluation = one complete ceremony (n nodes, v validators) under one pair of barrier orders, fully judged; '
          'distinct = (configuration, order family)',
  'budget_s': {'quick': 100, 'thorough': 1500},
